@@ -47,6 +47,79 @@ type verifC12Case struct {
 	WithCommit  bool          `json:"withCommit"`
 	WithAnchor  bool          `json:"withAnchor"`
 	Htlcs       []verifCCHtlc `json:"htlcs"`
+
+	// NoInvoicesErr: a registry that holds no invoice at all answers
+	// ErrNoInvoicesCreated instead of ErrInvoiceNotFound.
+	NoInvoicesErr bool `json:"noInvoicesErr,omitempty"`
+}
+
+// verifC12Src is one class of the preimage-knowledge SOURCE: what the witness
+// cache and the invoice registry hold for the HTLC's payment hash. The
+// reference rule is the statement's "whose preimage it knows": the node knows
+// the preimage iff the cache has it or the registry's invoice carries it - for
+// open, accepted and settled invoices alike (a settled invoice: we released the
+// preimage but the peer never removed the HTLC). Only source a CANCELED invoice
+// that still carries the preimage: debatable, neutral.
+type verifC12Src struct {
+	name  string
+	cache bool
+	inv   string
+	pre   bool
+}
+
+var (
+	// sources of a KNOWN preimage (weights by repetition)
+	verifC12KnownSrcs = []verifC12Src{
+		{"cache", true, "none", false},
+		{"cache", true, "none", false},
+		{"cache", true, "none", false},
+		{"reg_open", false, "open", true},
+		{"reg_accepted", false, "accepted", true},
+		{"reg_settled", false, "settled", true},
+		{"reg_settled", false, "settled", true},
+		{"both_open", true, "open", true},
+		{"both_settled", true, "settled", true},
+		{"both_accepted_nopre", true, "accepted", false},
+		{"both_canceled", true, "canceled", true},
+		// neutral class
+		{"reg_canceled_pre", false, "canceled", true},
+	}
+	// sources that leave the preimage UNKNOWN
+	verifC12UnknownSrcs = []verifC12Src{
+		{"none", false, "none", false},
+		{"none", false, "none", false},
+		{"none", false, "none", false},
+		{"none", false, "none", false},
+		{"reg_accepted_nopre", false, "accepted", false},
+		{"reg_accepted_nopre", false, "accepted", false},
+		{"reg_open_nopre", false, "open", false},
+		{"reg_canceled_nopre", false, "canceled", false},
+	}
+)
+
+// verifC12AssignSource refines the known/unknown draw of an HTLC into the
+// source of the knowledge. Offered HTLCs (we pay one of our own invoices
+// through a circular route) get a registry source less often.
+func verifC12AssignSource(r *verifRng, h *verifCCHtlc) {
+	var src verifC12Src
+	switch {
+	case h.PreKnown && (h.Incoming || r.Chance(1, 3)):
+		src = verifC12KnownSrcs[r.Intn(len(verifC12KnownSrcs))]
+	case h.PreKnown:
+		src = verifC12KnownSrcs[0]
+	case h.Incoming || r.Chance(1, 4):
+		src = verifC12UnknownSrcs[r.Intn(len(verifC12UnknownSrcs))]
+	default:
+		src = verifC12UnknownSrcs[0]
+	}
+	h.PreSrc, h.PreCache, h.InvState, h.InvPre = src.name, src.cache,
+		src.inv, src.pre
+	h.PreInvoice = !src.cache && src.inv != "none"
+
+	// Reference verdict, from the statement.
+	carried := src.inv != "none" && src.pre
+	h.PreKnown = src.cache || (carried && src.inv != "canceled")
+	h.PreNeutral = !src.cache && carried && src.inv == "canceled"
 }
 
 var verifC12Deltas = []uint32{1, 5, 10, 40}
@@ -141,6 +214,14 @@ func verifC12Gen(r *verifRng) verifC12Case {
 	}
 	c.ConfAfter = after[r.Intn(len(after))]
 
+	// Knowledge sources: drawn last from a forked stream, so that every
+	// other dimension of the case list is independent of this refinement.
+	sr := r.Fork("c12-preimage-source")
+	for i := range c.Htlcs {
+		verifC12AssignSource(sr, &c.Htlcs[i])
+	}
+	c.NoInvoicesErr = sr.Bool()
+
 	return c
 }
 
@@ -165,8 +246,22 @@ type verifC12Obs struct {
 func verifC12Eligible(c *verifC12Case, h int32, uptimeSec int) (must bool,
 	unclaimableOnly bool, anyPast bool, why string) {
 
+	must, unclaimableOnly, anyPast, why, _ = verifC12EligibleSrc(
+		c, h, uptimeSec,
+	)
+
+	return must, unclaimableOnly, anyPast, why
+}
+
+// verifC12EligibleSrc additionally reports onlySrc: the knowledge source class
+// when every HTLC that obliges us to close is a received one of that single
+// class ("" otherwise) - the obligation then rests on that source alone.
+func verifC12EligibleSrc(c *verifC12Case, h int32, uptimeSec int) (must bool,
+	unclaimableOnly bool, anyPast bool, why string, onlySrc string) {
+
 	neutral := false
 	unclaimable := 0
+	srcs := map[string]bool{}
 	for i := range c.Htlcs {
 		ht := &c.Htlcs[i]
 		delta := c.OutDelta
@@ -178,6 +273,12 @@ func verifC12Eligible(c *verifC12Case, h int32, uptimeSec int) (must bool,
 		}
 		anyPast = true
 		switch {
+		case ht.Incoming && ht.PreNeutral:
+			// Only a canceled invoice carries the preimage: the
+			// statement does not say whether that counts as
+			// knowing it.
+			neutral = true
+
 		case ht.Incoming && !ht.PreKnown:
 			unclaimable++
 
@@ -185,6 +286,7 @@ func verifC12Eligible(c *verifC12Case, h int32, uptimeSec int) (must bool,
 			// Received HTLCs are on our commitment by protocol.
 			must = true
 			why = ht.name()
+			srcs["in:"+ht.PreSrc] = true
 
 		case !ht.OnL:
 			neutral = true
@@ -192,18 +294,25 @@ func verifC12Eligible(c *verifC12Case, h int32, uptimeSec int) (must bool,
 		case ht.Forwarded:
 			must = true
 			why = ht.name()
+			srcs["out"] = true
 
 		case uptimeSec > c.GraceSec:
 			must = true
 			why = ht.name()
+			srcs["out"] = true
 
 		default:
 			neutral = true
 		}
 	}
 	unclaimableOnly = unclaimable > 0 && !must && !neutral
+	if must && len(srcs) == 1 {
+		for s := range srcs {
+			onlySrc = s
+		}
+	}
 
-	return must, unclaimableOnly, anyPast, why
+	return must, unclaimableOnly, anyPast, why, onlySrc
 }
 
 func verifC12Run(t *testing.T, vc *verifCtx, dir string, i int,
@@ -218,6 +327,15 @@ func verifC12Run(t *testing.T, vc *verifCtx, dir string, i int,
 
 	w := verifCCNewWorld(kv, c.Htlcs, c.WithPending, c.Start)
 	w.anchors = c.Anchors
+	w.noInvoicesCreated = c.NoInvoicesErr
+	for hi := range c.Htlcs {
+		ht := &c.Htlcs[hi]
+		if ht.Incoming {
+			vc.Count("src_"+ht.PreSrc, 1)
+		} else if ht.InvState != "none" {
+			vc.Count("src_offered_registry", 1)
+		}
+	}
 	opts := verifCCArbOpts{
 		OutDelta: c.OutDelta, InDelta: c.InDelta,
 		Grace:       time.Duration(c.GraceSec) * time.Second,
@@ -245,13 +363,18 @@ func verifC12Run(t *testing.T, vc *verifCtx, dir string, i int,
 		if !checkNow || userAsked {
 			return
 		}
-		must, unclaimOnly, anyPast, why := verifC12Eligible(
+		must, unclaimOnly, anyPast, why, onlySrc := verifC12EligibleSrc(
 			c, h, uptime,
 		)
 		called := closedAt() > 0
 		vc.Count("oracle_deadline_evals", 1)
 		if must && !mustSeen {
 			mustSeen = true
+			if strings.HasPrefix(onlySrc, "in:") {
+				// The obligation rests on received HTLCs of one
+				// knowledge source only.
+				vc.Count("deadline_must_only_src_"+onlySrc[3:], 1)
+			}
 			if !called {
 				obs := &verifC12Obs{
 					ForceCloses: w.forceCloseHeights(),
@@ -459,9 +582,12 @@ func verifC12Run(t *testing.T, vc *verifCtx, dir string, i int,
 	}
 	fbKey := func(h *verifCCHtlc, onK string) string {
 		bv, past := bview(h)
+		// Fingerprint only: "known" here is "some source carries the
+		// preimage" (incl. the neutral canceled-invoice class), which
+		// is what separates the mechanisms of the known findings.
 		return fmt.Sprintf("failback-count=%d:onK=%s:bview=%s:cause=%s:"+
 			"due=%v:known=%v:%s", verifMin(fails[h.Idx], 2), onK,
-			bv, cause, past, h.PreKnown, tag)
+			bv, cause, past, h.PreKnown || h.PreNeutral, tag)
 	}
 	finalFail := map[uint64]int{}
 	finalSettle := map[uint64]int{}
@@ -613,7 +739,17 @@ func verifC12Run(t *testing.T, vc *verifCtx, dir string, i int,
 				}
 
 			default:
+				if h.PreNeutral {
+					// Only a canceled invoice carries the
+					// preimage: neither clause applies.
+					vc.Count("neutral_canceled_invoice_offered_absent", 1)
+
+					continue
+				}
 				if h.PreKnown {
+					if h.InvState != "none" && !h.PreCache {
+						vc.Count("known_not_failed_registry_only_evals", 1)
+					}
 					// "... unless its preimage is already
 					// known": the forward was (or will be)
 					// settled upstream with that preimage.
@@ -743,10 +879,15 @@ type verifC12CellCase struct {
 	WithPending bool          `json:"withPending"`
 	K           string        `json:"K"`
 	Htlcs       []verifCCHtlc `json:"htlcs"`
+	Src         int           `json:"src"`
 }
 
 func verifC12EvalCells(vc *verifCtx, arb *ChannelArbitrator, w *verifCCWorld,
 	cc *verifC12CellCase) {
+
+	// Source of the known preimages of this cell case: witness cache,
+	// settled invoice or open invoice in the registry.
+	srcKind := cc.Src % 3
 
 	// number the HTLCs per direction
 	var nOut, nIn uint64
@@ -762,12 +903,25 @@ func verifC12EvalCells(vc *verifCtx, arb *ChannelArbitrator, w *verifCCWorld,
 	w.mu.Lock()
 	w.htlcs = cc.Htlcs
 	w.beacon = map[lntypes.Hash]lntypes.Preimage{}
+	w.invoice = map[lntypes.Hash]*verifCCInvoice{}
 	for i := range cc.Htlcs {
-		if cc.Htlcs[i].PreKnown {
-			w.beacon[cc.Htlcs[i].hash()] = cc.Htlcs[i].preimage()
+		h := &cc.Htlcs[i]
+		if !h.PreKnown {
+			continue
+		}
+		switch srcKind {
+		case 0:
+			w.beacon[h.hash()] = h.preimage()
+		default:
+			h.InvPre, h.InvState = true, "settled"
+			if srcKind == 2 {
+				h.InvState = "open"
+			}
+			w.invoice[h.hash()] = verifCCInvoiceFor(h)
 		}
 	}
 	w.mu.Unlock()
+	vc.Count(fmt.Sprintf("cell_src_kind_%d", srcKind), 1)
 	cs := CommitSet{
 		ConfCommitKey: fn.Some(verifCCSetKey(cc.K)),
 		HtlcSets:      verifCCSets(cc.Htlcs, cc.WithPending),
@@ -922,6 +1076,7 @@ func TestVerifC12(t *testing.T) {
 						cc := verifC12CellCase{
 							WithPending: withPending,
 							K:           k,
+							Src:         counter / 3,
 							Htlcs: []verifCCHtlc{
 								cells[a],
 							},
